@@ -77,10 +77,64 @@ theorem export_eq_doc (x : Str → Option Str) (m : Module) (d : Doc) (h : «exp
 
 /-! ## closed -/
 
-/-- Every `*-REF` of an exported document is the `IDENTIFIER` of an element of that document —
-datatype references of attribute definitions, definition references of values (standard and
-custom, with and without definition, under the requirement's own type), enumeration value
-references, spec-object-type, specification-type and spec-object references. -/
+/-- "Every reference resolves" at full strength: for every module that is exported and whose elements are
+identified by their uuids. -/
+def C20_closed_full : Prop :=
+  ∀ (x : Str → Option Str) (m : Module) (d : Doc), «export» x m = .ok d → Identity m → ∀ i ∈ d.refs, i ∈ d.defs
+
+private def staleE1 : DataType := { uuid := "d1".toList, longName := [], values := [{ uuid := "e1".toList, longName := [], description := [] }] }
+private def staleE2 : DataType := { uuid := "d2".toList, longName := [], values := [{ uuid := "e2".toList, longName := [], description := [] }] }
+private def staleDef : AttrDef :=
+  { uuid := "a1".toList, longName := [], description := [], isEnum := true, multiValued := false, dataType := some staleE2 }
+/-- the witness: the definition was re-typed from data type `d1` to `d2` after value `e1` had been chosen -/
+private def staleM : Module :=
+  { modelUuid := "mm".toList, uuid := "m0".toList, longName := [], description := [], type := none,
+    reqs := [{ uuid := "r1".toList, longName := [], identifier := [], chapterName := [], name := [], text := [], type := none,
+               attrs := [{ defn := some staleDef, value := .enum ["e1".toList] }] }],
+    folders := [] }
+
+/-- It does not hold for the code: an enumeration attribute may hold a value that is not a value of its
+definition's (current) data type — class-correct, reachable by re-assigning `definition.data_type` — and
+the exporter writes the `ENUM-VALUE-REF` although only the definition's data type is emitted. -/
+theorem C20_closed_full_fails : ¬ C20_closed_full := by
+  intro h
+  have hx : «export» (fun s => some s) staleM = .ok (doc (fun s => some s) staleM) :=
+    export_ok _ staleM rfl (fun _ => rfl) (by decide) (by decide)
+  have := h _ staleM _ hx ⟨by decide, by decide, by decide⟩ (.obj "E1".toList) (by decide)
+  revert this
+  decide
+
+/-- The strongest statement the code satisfies, with the exact excluded inputs: every `*-REF` of an
+exported document is the `IDENTIFIER` of an element of that document — datatype references of attribute
+definitions, definition references of values (standard and custom, with and without definition, under the
+requirement's own type), spec-object-type, specification-type and spec-object references unconditionally,
+enumeration value references whenever every choice is a value of a data type that is emitted with its
+values (`EnumRefsCovered`). Holds for every iteration order of the exporter's sets. -/
+theorem refs_closed_partial (x : Str → Option Str) (m : Module) (d : Doc) (h : «export» x m = .ok d)
+    (hI : Identity m) (hC : EnumRefsCovered m) : ∀ i ∈ d.refs, i ∈ d.defs := by
+  have hd := export_eq_doc x m d h
+  subst hd
+  exact refs_closed_cov x m (req_raw_uuids_nodup m hI) hC
+
+/-- … and the exclusion is exact: in a closed document every enumeration choice resolves to an element
+identified by a plain uuid (`objUuids`: an `ENUM-VALUE`, or — only if uuids are shared across kinds — another
+object). -/
+theorem refs_closed_only_if (x : Str → Option Str) (m : Module) (h : ∀ i ∈ (doc x m).refs, i ∈ (doc x m).defs) :
+    ∀ r ∈ m.dfs, ∀ a ∈ r.attrs, ∀ u ∈ a.value.enumRefs, u ∈ objUuids m := by
+  intro r hr a ha u hu
+  have href : Ident.obj u ∈ (doc x m).refs := by
+    simp only [Doc.refs, List.mem_append, List.mem_flatMap]
+    refine Or.inl (Or.inr ⟨specObject x r, ?_, ?_⟩)
+    · rw [doc_specObjects]; exact List.mem_map_of_mem hr
+    · simp only [SpecObjectEl.refs, specObject, List.mem_append, List.mem_flatMap, List.mem_map]
+      exact Or.inl (Or.inr ⟨attrValue a, ⟨a, ha, rfl⟩, by simp [AttrValueEl.refs, attrValue, hu]⟩)
+  have hdef := (defs_perm x m).mem_iff.mp (h _ href)
+  have : Ident.obj u ∈ (defsU m).filter Ident.isObj := List.mem_filter.mpr ⟨hdef, rfl⟩
+  rw [defsU_filter_obj] at this
+  simpa using this
+
+/-- The metamodel's typing is a sufficient condition: every `*-REF` of an exported document of a typed
+module is the `IDENTIFIER` of an element of that document. -/
 theorem refs_closed (x : Str → Option Str) (m : Module) (d : Doc) (h : «export» x m = .ok d)
     (hI : Identity m) (hT : Typed m) : ∀ i ∈ d.refs, i ∈ d.defs := by
   have hd := export_eq_doc x m d h
@@ -92,6 +146,11 @@ theorem refs_closed (x : Str → Option Str) (m : Module) (d : Doc) (h : «expor
       obtain ⟨e, he, _⟩ := export_no_document x m (Or.inl hh)
       rw [he] at h; cases h
   exact refs_closed' x m (req_raw_uuids_nodup m hI) hT hI.dts hE
+
+/-- `Typed` implies the exact condition (so `refs_closed` is an instance of `refs_closed_partial`). -/
+theorem typed_implies_covered (m : Module) (hI : Identity m) (hT : Typed m) (hE : hasEnumWithoutDef m = false) :
+    EnumRefsCovered m :=
+  typed_covered m (req_raw_uuids_nodup m hI) hT hI.dts hE
 
 /-- The reference scheme before the repair is not closed: a definition-less attribute was referenced
 as `NULLTYPE--<T>` while its definition is `_NULL-ATTRIBUTE-DEFINITION--<T>`. -/
@@ -106,6 +165,16 @@ theorem ids_unique (x : Str → Option Str) (m : Module) (d : Doc) (h : «export
   have hd := export_eq_doc x m d h
   subst hd
   exact defs_nodup x m hI
+
+/-- Before the repair (`datatypeElOld`) an enumeration definition under a simple attribute wrote its
+values into the simple datatype as well: with an enumeration attribute of the same definition both
+emitted datatypes carry the same `ENUM-VALUE` identifiers. -/
+theorem old_specified_values_duplicate :
+    let d : AttrDef := { uuid := "a1".toList, longName := [], description := [], isEnum := true, multiValued := false,
+                         dataType := some { uuid := "d1".toList, longName := [], values := [{ uuid := "e1".toList, longName := [], description := [] }] } }
+    ¬ ((datatypeElOld (some d, .string)).ids ++ (datatypeElOld (some d, .enumeration)).ids).Nodup ∧
+      ((datatypeEl (some d, .string)).ids ++ (datatypeEl (some d, .enumeration)).ids).Nodup := by
+  decide
 
 /-- The identifier texts the code builds (`"_" + uuid.upper()`, `…--HIER`, `_<DEF>.<TYPE>--<KIND>`,
 `_STD-ATTRIBUTE-<TYPE>-ReqIF.<name>`, the `NULL-…` words, …) determine the identifier: two shaped
